@@ -2,6 +2,7 @@
 PSyclone, abstract the real schedule into the model's tree, apply one history step to
 the real schedule, and evaluate the property (`Safe`) directly on the real schedule."""
 import copy
+import json
 import os
 import shutil
 import tempfile
@@ -466,9 +467,28 @@ def apply_options(opts):
     return d or None
 
 
-def apply_step(sched, step):
+class OptionsPool:
+    """The options dictionaries of a transformation SCRIPT: the caller keeps ONE dictionary object per distinct option
+    content and hands that same object to every transformation it applies with those options (the way real scripts do).
+    The caller never writes into them, so whatever a transformation writes there leaks into every later step that uses
+    the same object.  `mutations` records every apply()/validate() that left the caller's dictionary changed."""
+
+    def __init__(self):
+        self.objs = {}
+        self.mutations = []
+
+    def get(self, opts):
+        d = apply_options(opts)
+        if d is None:
+            return None, None
+        key = json.dumps(d, sort_keys=True)
+        return self.objs.setdefault(key, d), json.loads(key)
+
+
+def apply_step(sched, step, pool=None):
     """step = [trans name, [pre-order indices]] or [name, indices, options].
-    Returns ("ok", None) or ("refused", message)."""
+    Returns ("ok", None) or ("refused", message).  With `pool` the options object is the caller's shared dictionary for
+    that option content (see OptionsPool) instead of a fresh one."""
     from psyclone.psyir.transformations import TransformationError
     name, targets = step[0], step[1]
     opts = step[2] if len(step) > 2 else None
@@ -476,11 +496,19 @@ def apply_step(sched, step):
     if any(t >= len(nodes) for t in targets) or not targets:
         return "badtarget", None
     tr = make_trans(name, opts)
+    if pool is not None:
+        opt_obj, written = pool.get(opts)
+    else:
+        opt_obj, written = apply_options(opts), None
     try:
-        if name in LOOP_TRANS:
-            tr.apply(nodes[targets[0]], apply_options(opts))
-        else:
-            tr.apply([nodes[t] for t in targets], apply_options(opts))
+        try:
+            if name in LOOP_TRANS:
+                tr.apply(nodes[targets[0]], opt_obj)
+            else:
+                tr.apply([nodes[t] for t in targets], opt_obj)
+        finally:
+            if pool is not None and opt_obj is not None and opt_obj != written:
+                pool.mutations.append(f"{type(tr).__name__}.apply left the caller's options {written} as {opt_obj}")
     except TransformationError as e:
         return "refused", str(e.value)[:200]
     except Exception as e:   # noqa: broad on purpose
